@@ -44,6 +44,11 @@ type c23reply struct {
 	ok      bool     // well-formed with Result=true
 	keys    []string // for ok list replies
 	primary string
+	// a reply that counts as failed (no Result=true) but carries keys: whether its keys are
+	// counted is left open by the statement (lower bound without, upper bound with them)
+	failKeys    []string
+	failPrimary string
+	partial     bool // well-formed msgpack map that omits some fields
 }
 
 // c23str is the msgpack encoding of a short string.
@@ -103,6 +108,26 @@ func c23alphabet(list bool) []c23reply {
 		p = append(p, c23str("Message")...)
 		return append(p, 0xd9, 0x40, 'c', 'u', 't')
 	}})
+	// Well-formed replies that OMIT fields (an absent field is its zero value; absent Result =
+	// failure). They are listed after the fully populated replies, so in ascending delivery
+	// order they arrive after them and in descending order before them.
+	hand := func(fields ...[]byte) func() []byte {
+		return func() []byte {
+			p := []byte{serf.VMsgKeyResponse, 0x80 | byte(len(fields))}
+			for _, f := range fields {
+				p = append(p, f...)
+			}
+			return p
+		}
+	}
+	fResultTrue := append(c23str("Result"), 0xc3)
+	fResultFalse := append(c23str("Result"), 0xc2)
+	fKeysB := append(append(c23str("Keys"), 0x91), c23str(b)...)
+	fPrimB := append(c23str("PrimaryKey"), c23str(b)...)
+	out = append(out, c23reply{name: "only{Result:true}", ok: true, partial: true, payload: hand(fResultTrue)})
+	out = append(out, c23reply{name: "only{Keys:[B],PrimaryKey:B}", partial: true, failKeys: []string{b}, failPrimary: b, payload: hand(fKeysB, fPrimB)})
+	out = append(out, c23reply{name: "only{Result:false}", partial: true, payload: hand(fResultFalse)})
+	out = append(out, c23reply{name: "emptymap{}", partial: true, payload: hand()})
 	out = append(out, c23reply{name: "missing", missing: true})
 	return out
 }
@@ -140,6 +165,7 @@ type c23aggCase struct {
 	Local   string   `json:"local_reply"`
 	Dup     bool     `json:"every_reply_delivered_twice"`
 	Batch   bool     `json:"replies_delivered_in_one_batch"`
+	Rev     bool     `json:"peer_replies_arrive_in_reverse_order"`
 }
 
 func c23multisets(nsym, k int) [][]int {
@@ -179,11 +205,12 @@ func init() {
 	vc.Register(&vc.Check{
 		ID:    "C23",
 		Level: "exploration",
-		Rule: "cases (aggregation): every KeyManager operation in {ListKeys, InstallKey(new), UseKey(absent locally), UseKey(present), RemoveKey(primary)} on a real node that knows k peers (k=1..3, thorough 1..4) x every multiset of k peer replies over the alphabet {ok{A}, ok{A,B} primary A, ok{A,B} primary B, ok{B}, ok with message, failed (Result=false) with and without a message, wrong type byte, empty payload, undecodable (cut msgpack), missing} (non-list operations: without the key-set variants) x the node's own real reply {looped back first, looped back last, lost} x {each reply once, each reply delivered twice} x {aggregator runs after every reply, after all replies}; non-trivial = at least one peer reply is not a plain success. " +
+		Rule: "cases (aggregation): every KeyManager operation in {ListKeys, InstallKey(new), UseKey(absent locally), UseKey(present), RemoveKey(primary)} on a real node that knows k peers (k=1..3, thorough 1..4) x every multiset of k peer replies over the alphabet {ok{A}, ok{A,B} primary A, ok{A,B} primary B, ok{B}, ok with message, failed (Result=false) with and without a message, wrong type byte, empty payload, undecodable (cut msgpack), well-formed maps that omit fields: {only Result:true}, {only Keys:[B]+PrimaryKey:B}, {only Result:false}, {empty map}, missing} (non-list operations: without the key-set variants) x the node's own real reply {looped back first, looped back last, lost} x {each reply once, each reply delivered twice} x {aggregator runs after every reply, after all replies} x {peer replies arrive in ascending, descending alphabet order (descending only when it is a different sequence)}, so every field-omitting reply is processed both right after fully populated replies (peers' and the node's own) and before them; non-trivial = at least one peer reply is not a plain success. " +
 			"cases (reply size): a list-keys query injected into a fresh real node for every key count n (quick: 17 values in 0..60, thorough: all 0..60) x key lengths {all 16B, all 32B, mixed 16/24/32} x node-name lengths {1,64,128} x QueryResponseSizeLimit in {60,80..1400} plus the exact sizes (-1,0,+1) of the 0-, 1-, 2-, (n-1)- and n-key replies; non-trivial = the reply had to be truncated or could not be sent",
 		Assumptions: []string{
 			"peer replies come from members only and at most one distinct reply per node (a second copy of the same reply, as produced by relaying, must not be counted again)",
 			"the number of members is what memberlist reports after a real Join against the in-memory push/pull responder (k peers + the node itself)",
+			"a field absent from a well-formed reply has its zero value (absent Result = failed reply); whether the keys carried by a reply that counts as failed are included in the key counts is left open (lower/upper bound)",
 			"key and primary-key counts are compared for non-empty keys only; the Messages map and the counts of non-listing operations are not constrained by the statement",
 			"'one key fits' = the reply carrying the first min(1,n) keys (with the node's truncation notice 'truncated key list response, showing first 1 of n keys' when n>1), encoded with the node's own codec, is within the limit; a reply that the node refuses to send because it is over the limit is observed as 'no reply' and counted as exceeding the limit when one key fits",
 			"a truncated reply 'states how many of how many' = its message contains the number of keys shown followed by the total as decimal numbers",
@@ -217,7 +244,11 @@ func c23aggregation(ctx *vc.Ctx, idx *int) {
 			for _, ms := range c23multisets(len(alpha), k) {
 				for local := 0; local < 3; local++ {
 					for dup := 0; dup < 2; dup++ {
-						for batch := 0; batch < 2; batch++ {
+						for variant := 0; variant < 4; variant++ {
+							batch, rev := variant&1, variant>>1
+							if rev == 1 && !c23orderMatters(alpha, ms) {
+								continue // the reversed arrival order is the same sequence
+							}
 							*idx++
 							if !ctx.Mine(*idx) || !scn.Exhaustive {
 								continue
@@ -228,7 +259,7 @@ func c23aggregation(ctx *vc.Ctx, idx *int) {
 								scn.StopReason = "time budget exhausted"
 								continue
 							}
-							out, nontriv := c23aggCaseRun(ctx, scn, op, alpha, ms, local, dup == 1, batch == 1)
+							out, nontriv := c23aggCaseRun(ctx, scn, op, alpha, ms, local, dup == 1, batch == 1, rev == 1)
 							if ctx.Report.HarnessErr != "" {
 								return
 							}
@@ -241,9 +272,24 @@ func c23aggregation(ctx *vc.Ctx, idx *int) {
 	}
 }
 
-func c23aggCaseRun(ctx *vc.Ctx, scn *vc.Scenario, op c23op, alpha []c23reply, ms []int, local int, dup, batch bool) (string, bool) {
+// c23orderMatters: at least two different replies are actually delivered.
+func c23orderMatters(alpha []c23reply, ms []int) bool {
+	first := -1
+	for _, s := range ms {
+		if alpha[s].missing {
+			continue
+		}
+		if first >= 0 && s != first {
+			return true
+		}
+		first = s
+	}
+	return false
+}
+
+func c23aggCaseRun(ctx *vc.Ctx, scn *vc.Scenario, op c23op, alpha []c23reply, ms []int, local int, dup, batch, rev bool) (string, bool) {
 	k := len(ms)
-	desc := c23aggCase{Op: op.name, Peers: k, Local: c23localName[local], Dup: dup, Batch: batch}
+	desc := c23aggCase{Op: op.name, Peers: k, Local: c23localName[local], Dup: dup, Batch: batch, Rev: rev}
 	for _, s := range ms {
 		desc.Replies = append(desc.Replies, alpha[s].name)
 	}
@@ -334,7 +380,12 @@ func c23aggCaseRun(ctx *vc.Ctx, scn *vc.Scenario, op c23op, alpha []c23reply, ms
 			localSeen = true
 			deliver(localRaw)
 		}
-		for i, s := range ms {
+		for j := range ms {
+			i := j
+			if rev {
+				i = len(ms) - 1 - j
+			}
+			s := ms[i]
 			if alpha[s].missing {
 				continue
 			}
@@ -376,18 +427,24 @@ func c23aggCaseRun(ctx *vc.Ctx, scn *vc.Scenario, op c23op, alpha []c23reply, ms
 	// reference model
 	members := k + 1
 	wantResp, wantErr := 0, 0
-	wantKeys, wantPrim := map[string]int{}, map[string]int{}
+	wantKeys, wantPrim := map[string]int{}, map[string]int{} // lower bounds
+	maxKeys, maxPrim := map[string]int{}, map[string]int{}   // upper bounds (keys carried by failed replies)
 	add := func(ok bool, keys []string, prim string) {
 		wantResp++
 		if !ok {
 			wantErr++
-			return
 		}
 		for _, key := range keys {
-			wantKeys[key]++
+			maxKeys[key]++
+			if ok {
+				wantKeys[key]++
+			}
 		}
 		if prim != "" {
-			wantPrim[prim]++
+			maxPrim[prim]++
+			if ok {
+				wantPrim[prim]++
+			}
 		}
 	}
 	if localSeen {
@@ -402,7 +459,32 @@ func c23aggCaseRun(ctx *vc.Ctx, scn *vc.Scenario, op c23op, alpha []c23reply, ms
 		if r.missing {
 			continue
 		}
-		add(r.ok, r.keys, r.primary)
+		if r.ok {
+			add(true, r.keys, r.primary)
+		} else if op.list {
+			add(false, r.failKeys, r.failPrimary)
+		} else {
+			add(false, nil, "")
+		}
+	}
+	within := func(got, lo, hi map[string]int) bool {
+		for key, v := range got {
+			if v < lo[key] || v > hi[key] {
+				return false
+			}
+		}
+		for key, v := range lo {
+			if got[key] < v {
+				return false
+			}
+		}
+		return true
+	}
+	bounds := func(lo, hi map[string]int) string {
+		if c23mapStr(lo) == c23mapStr(hi) {
+			return c23mapStr(lo)
+		}
+		return "between " + c23mapStr(lo) + " and " + c23mapStr(hi)
 	}
 	wantFail := wantErr > 0 || wantResp < members
 	strip := func(m map[string]int) map[string]int {
@@ -417,6 +499,11 @@ func c23aggCaseRun(ctx *vc.Ctx, scn *vc.Scenario, op c23op, alpha []c23reply, ms
 	label := fmt.Sprintf("resp=%d err=%d fail=%v", wantResp, wantErr, wantFail)
 	what := fmt.Sprintf("case %+v (node's own reply ok=%v); returned NumNodes=%d NumResp=%d NumErr=%d Keys=%s PrimaryKeys=%s Messages=%v err=%v", desc, localOK, got.NumNodes, got.NumResp, got.NumErr, c23mapStr(got.Keys), c23mapStr(got.PrimaryKeys), got.Messages, gotErr)
 	cls := "wellformed-only"
+	for _, s := range ms {
+		if alpha[s].partial {
+			cls = "with-omitted-fields"
+		}
+	}
 	for _, s := range ms {
 		switch alpha[s].name {
 		case "wrongtype", "empty", "undecodable":
@@ -439,12 +526,12 @@ func c23aggCaseRun(ctx *vc.Ctx, scn *vc.Scenario, op c23op, alpha []c23reply, ms
 		return "bad-error", nontriv
 	}
 	if op.list {
-		if g, w := c23mapStr(strip(got.Keys)), c23mapStr(wantKeys); g != w {
-			ctx.Violation(scn.Name, "aggregate: key-counts-wrong ("+cls+")", fmt.Sprintf("key holders should be %s, got %s; %s", w, g, what), replay)
+		if g := strip(got.Keys); !within(g, wantKeys, maxKeys) {
+			ctx.Violation(scn.Name, "aggregate: key-counts-wrong ("+cls+")", fmt.Sprintf("key holders should be %s, got %s; %s", bounds(wantKeys, maxKeys), c23mapStr(g), what), replay)
 			return "bad-keys", nontriv
 		}
-		if g, w := c23mapStr(strip(got.PrimaryKeys)), c23mapStr(wantPrim); g != w {
-			ctx.Violation(scn.Name, "aggregate: primary-key-counts-wrong ("+cls+")", fmt.Sprintf("primary key holders should be %s, got %s; %s", w, g, what), replay)
+		if g := strip(got.PrimaryKeys); !within(g, wantPrim, maxPrim) {
+			ctx.Violation(scn.Name, "aggregate: primary-key-counts-wrong ("+cls+")", fmt.Sprintf("primary key holders should be %s, got %s; %s", bounds(wantPrim, maxPrim), c23mapStr(g), what), replay)
 			return "bad-primary", nontriv
 		}
 		label += " keys=" + c23mapStr(wantKeys) + " prim=" + c23mapStr(wantPrim)
